@@ -403,8 +403,8 @@ theorem MgrsAgreeOff.storedSame {Na Nb : List String} {ms ms' : List (String × 
 def Hexital.WellKeyed (h : Hexital F) : Prop :=
   ∀ n hi, dlookup n h.indicators = some hi → hi.tree.name = n
 
-theorem Hexital.attach_wellKeyed (h h' : Hexital F) (m : Member F) (hw : h.WellKeyed)
-    (ha : h.attach m = .ok h') : h'.WellKeyed := by
+theorem Hexital.attachFrom_wellKeyed (src : Option (List (Candle F))) (h h' : Hexital F) (m : Member F)
+    (hw : h.WellKeyed) (ha : h.attachFrom src m = .ok h') : h'.WellKeyed := by
   have key : ∀ (k : String) (ms : List (String × Manager F)),
       Hexital.WellKeyed (⟨h.cfg, h.tfName, ms, dset m.tree.name ⟨m.tree, k, 0⟩ h.indicators⟩ : Hexital F) := by
     intro k ms n hi hl
@@ -413,24 +413,32 @@ theorem Hexital.attach_wellKeyed (h h' : Hexital F) (m : Member F) (hw : h.WellK
     by_cases hn : m.tree.name = n
     · simp only [hn, if_true] at hl; cases hl; exact hn
     · simp only [hn, if_false] at hl; exact hw n hi hl
-  unfold Hexital.attach at ha
+  unfold Hexital.attachFrom at ha
   split at ha
   · cases ha; exact key _ _
   · split at ha
     · cases ha; exact key _ _
-    · obtain ⟨dm, _, ha⟩ := Writes.bind_ok ha
+    · obtain ⟨raw, _, ha⟩ := Writes.bind_ok ha
       obtain ⟨nm, _, ha⟩ := Writes.bind_ok ha
       cases ha; exact key _ _
 
-theorem Hexital.foldlM_attach_wellKeyed (ms : List (Member F)) :
-    ∀ (h h' : Hexital F), h.WellKeyed → ms.foldlM Hexital.attach h = .ok h' → h'.WellKeyed := by
+theorem Hexital.attach_wellKeyed (h h' : Hexital F) (m : Member F) (hw : h.WellKeyed)
+    (ha : h.attach m = .ok h') : h'.WellKeyed :=
+  Hexital.attachFrom_wellKeyed none h h' m hw ha
+
+theorem Hexital.foldlM_attachFrom_wellKeyed (src : Option (List (Candle F))) (ms : List (Member F)) :
+    ∀ (h h' : Hexital F), h.WellKeyed → ms.foldlM (Hexital.attachFrom src) h = .ok h' → h'.WellKeyed := by
   induction ms with
   | nil => intro h h' hw e; simp [List.foldlM, pure, Except.pure] at e; subst e; exact hw
   | cons m r ih =>
     intro h h' hw e
     rw [List.foldlM_cons] at e
     obtain ⟨h1, e1, e2⟩ := Writes.bind_ok e
-    exact ih h1 h' (Hexital.attach_wellKeyed h h1 m hw e1) e2
+    exact ih h1 h' (Hexital.attachFrom_wellKeyed src h h1 m hw e1) e2
+
+theorem Hexital.foldlM_attach_wellKeyed (ms : List (Member F)) :
+    ∀ (h h' : Hexital F), h.WellKeyed → ms.foldlM Hexital.attach h = .ok h' → h'.WellKeyed :=
+  Hexital.foldlM_attachFrom_wellKeyed none ms
 
 /-- a freshly constructed Hexital is well keyed … -/
 theorem Hexital.init_wellKeyed (cfg : MgrCfg) (tfName : Option String) (cs : List (Candle F))
@@ -438,7 +446,7 @@ theorem Hexital.init_wellKeyed (cfg : MgrCfg) (tfName : Option String) (cs : Lis
     h.WellKeyed := by
   unfold Hexital.init at e
   obtain ⟨dm, _, e⟩ := Writes.bind_ok e
-  exact Hexital.foldlM_attach_wellKeyed _ _ h (fun n hi hl => by simp at hl) e
+  exact Hexital.foldlM_attachFrom_wellKeyed _ _ _ h (fun n hi hl => by simp at hl) e
 
 /-- … `add_indicator` keeps it so … -/
 theorem Hexital.addIndicators_wellKeyed (h h' : Hexital F) (members : List (Member F)) (hw : h.WellKeyed)
